@@ -240,10 +240,22 @@ class GVec(_Generic):
             return _mask_vec(self, k)
         if isinstance(k, slice) and k == slice(None):
             return self
+        if isinstance(k, tuple) and len(k) == 2 and isinstance(k[0], slice) and k[0] == slice(None) and k[1] is None:
+            r = RowArr([self.val], self.space)  # v[:, np.newaxis]: an (N,1) column that broadcasts over the columns of an (N,k) array
+            r.broadcast_col = True
+            return r
         if isinstance(k, int) or isinstance(k, SV):
             return PosElem(self, k)
         raise Unsupported(f"GVec[{type(k).__name__}]")
     def __setitem__(self, k, v):
+        if isinstance(k, tuple) and len(k) == 1 and isinstance(k[0], GVec):
+            k = k[0]
+        if isinstance(k, GVec) and not (isinstance(k.val, SV) and k.val.isint):
+            _same_space(self.space, k.space, "masked store into a per-row vector")
+            if isinstance(v, GVec):
+                v = v.val
+            self.val = _ite_any(to_bool(k.val), v, self.val)
+            return
         if isinstance(k, (SV, int)):
             pv = RowPos(self.space).val.t
             kt = to_z3(k)
